@@ -82,6 +82,7 @@ type AllocProj struct {
 	BAs                             []BAProj
 	OpenCh                          []OC
 	HasChNode                       bool
+	TU                              int64 // allocation's own TimeUnit (ns)
 	Enterprise                      bool
 	RRMin, RRMax, WRMin, WRMax      uint64 // price ranges given at creation (tracked by the engine)
 }
@@ -119,6 +120,7 @@ type Snap struct {
 	Ass     map[int]*AssProj
 	ReadCtr map[[3]int]int64 // (blobber, client ref, alloc label) -> last counter
 	Chals   map[int]bool     // challenge nodes present
+	TU      int64            // conf.TimeUnit in ns as stored now
 }
 
 // ---------- run state ----------
@@ -297,6 +299,7 @@ func (r *Run) Snapshot() *Snap {
 			panic(err)
 		}
 		p.HasChNode = has
+		p.TU = a.TimeUnit
 		for _, oc := range ocs {
 			p.OpenCh = append(p.OpenCh, OC{Ch: r.chNum(oc.ID), Blobber: r.ref(oc.BlobberID), Created: oc.Created, Round: oc.RoundCreated})
 		}
@@ -395,6 +398,9 @@ func (r *Run) Snapshot() *Snap {
 		if present {
 			s.Chals[n] = true
 		}
+	}
+	if cf, err := storagesc.VerifGetConfig(ctx); err == nil && cf != nil {
+		s.TU = int64(cf.TimeUnit)
 	}
 	return s
 }
